@@ -68,6 +68,7 @@ type Contract struct {
 	Params   []string // explicit parameter names (for trusted contracts whose export data lacks names)
 	Results  []string
 	Monitors []*SinkSpec // Pattern = owner expression text
+	LitEnsures  map[int][]*Clause // postconditions of the N-th function literal (litresult = its result)
 	LitRequires map[int][]*Clause // assumptions on the parameters of the N-th function literal
 }
 
@@ -107,6 +108,7 @@ type ContractSet struct {
 	Funcs map[string]*Contract
 	Specs map[string]*SpecFunc
 	Preds map[string]*PredDef
+	GhostGroups map[string][]string
 	Ghost map[string]*GhostDecl // "TypeKey.name"
 	Files []string
 }
@@ -115,6 +117,14 @@ type GhostDecl struct {
 	Owner string // type key, e.g. "bytes.Buffer" or "io.Reader"
 	Name  string
 	Type  string // int, bool, bytes, mathint
+}
+
+// expandGhost: a ghost group name stands for its members.
+func (cs *ContractSet) expandGhost(g string) []string {
+	if m, ok := cs.GhostGroups[g]; ok {
+		return m
+	}
+	return []string{g}
 }
 
 func newContractSet() *ContractSet {
@@ -396,6 +406,20 @@ func (cs *ContractSet) loadContractFile(path, pkgPath string) error {
 			g := &GhostDecl{Owner: owner, Name: fs[0][i+1:], Type: fs[1]}
 			cs.Ghost[owner+"."+g.Name] = g
 			continue
+		case "ghostgroup":
+			// ghostgroup name member... : `x.#name` in modifies means all members
+			if err := flush(); err != nil {
+				return err
+			}
+			fs := strings.Fields(rest)
+			if len(fs) < 2 {
+				return fmt.Errorf("%s:%d: ghostgroup wants a name and members", path, rl.line)
+			}
+			if cs.GhostGroups == nil {
+				cs.GhostGroups = map[string][]string{}
+			}
+			cs.GhostGroups[fs[0]] = fs[1:]
+			continue
 		case "cite":
 			continue
 		}
@@ -410,10 +434,10 @@ func (cs *ContractSet) loadContractFile(path, pkgPath string) error {
 				// lit N requires expr : assumption on the parameters of the N-th function literal
 				fs := strings.SplitN(rest, " ", 3)
 				num, err := strconv.Atoi(fs[0])
-				if len(fs) < 3 || err != nil || fs[1] != "requires" {
-					return fmt.Errorf("%s:%d: lit wants `N requires expr`", path, rl.line)
+				if len(fs) < 3 || err != nil || (fs[1] != "requires" && fs[1] != "ensures") {
+					return fmt.Errorf("%s:%d: lit wants `N requires|ensures expr`", path, rl.line)
 				}
-				p = &pend{kind: "lit.requires", text: strings.TrimSpace(fs[2]), line: rl.line, loop: num}
+				p = &pend{kind: "lit." + fs[1], text: strings.TrimSpace(fs[2]), line: rl.line, loop: num}
 			} else if word == "loop" {
 				fs := strings.SplitN(rest, " ", 3)
 				if len(fs) < 3 {
@@ -654,6 +678,18 @@ func (cs *ContractSet) addClause(cur *Contract, kind string, loop int, text, fil
 			c.Label = fmt.Sprintf("i%d", len(ls.Invariants)+1)
 		}
 		ls.Invariants = append(ls.Invariants, c)
+	case "lit.ensures":
+		c, err := cs.mkClause(text, file, line)
+		if err != nil {
+			return err
+		}
+		if c.Label == "" {
+			c.Label = fmt.Sprintf("l%d", loop)
+		}
+		if cur.LitEnsures == nil {
+			cur.LitEnsures = map[int][]*Clause{}
+		}
+		cur.LitEnsures[loop] = append(cur.LitEnsures[loop], c)
 	case "lit.requires":
 		c, err := cs.mkClause(text, file, line)
 		if err != nil {
